@@ -635,5 +635,61 @@ pub fn main(opts: &Opts) {
             sink.sample(format!("{case} -> {out}"));
         }
     }
+    // a frame is ONE document: two `<rpc-reply>` root elements in one frame (with the same id) are
+    // never a success, whichever of them carries the error or the positive indication
+    if opts.replay.is_none() {
+        let mut r = Rng::new(rng.next());
+        for kind in KINDS {
+            let a = alphabet(&mut r);
+            let (err_e, err_w) = (a[1].clone(), a[2].clone());
+            let pos: Vec<Child> = match kind {
+                "empty" => vec![Child::Ok],
+                "data" => vec![Child::Data("<configuration><a>1</a></configuration>")],
+                "load" => vec![Child::Results(vec![Child::Ok])],
+                _ => vec![],
+            };
+            let wrap = |cs: &[Child]| -> Vec<Child> {
+                if kind == "load" {
+                    vec![Child::Results(cs.to_vec())]
+                } else {
+                    cs.to_vec()
+                }
+            };
+            let roots: Vec<Vec<Child>> = vec![
+                pos.clone(),
+                wrap(&[err_e.clone()]),
+                wrap(&[err_w.clone()]),
+                if kind == "load" {
+                    vec![Child::Results(vec![err_w.clone(), Child::Ok])]
+                } else {
+                    let mut d = vec![err_w.clone()];
+                    d.extend(pos.clone());
+                    d
+                },
+            ];
+            for x in &roots {
+                for y in &roots {
+                    for sep in ["", "<!-- between -->", "\n"] {
+                        let case = format!("tworoots;{kind};{};{};{}", doc_tokens(x).replace(';', "+"), doc_tokens(y).replace(';', "+"), hexs(sep));
+                        let (x2, y2, sep2) = (x.clone(), y.clone(), sep.to_string());
+                        let text_of = move |id: &str| {
+                            let first = doc_xml(id, &x2);
+                            format!("{}{sep2}{}", first.trim_end_matches("]]>]]>"), doc_xml(id, &y2))
+                        };
+                        let rt = tokio::runtime::Builder::new_current_thread().enable_all().build().unwrap();
+                        let out = rt.block_on(outcome(kind, &text_of));
+                        sink.corr(&case, format!("xml reply {cfg} {kind} {}", tokenize(&text_of("1"))), out.clone());
+                        let verdict = if out == "ok" || out.starts_with("data:") {
+                            "violation two-root-frame-reported-as-success".to_string()
+                        } else {
+                            "ok".to_string()
+                        };
+                        sink.direct(&case, verdict);
+                        sink.count("tworoots.cases");
+                    }
+                }
+            }
+        }
+    }
     sink.write(opts, "reply");
 }
